@@ -297,7 +297,7 @@ func execCodec(in KV) string {
 		if q != "none" {
 			qb = unhex(q)
 		}
-		m, err := tls.VerifMarshalServerEE(tls.VerifServerEE{ALPN: string(in.Bytes("alpn")), HasQUICTP: q != "none", QUICTP: qb,
+		m, err := tls.VerifMarshalServerEE(tls.VerifFuzzServerEE{ALPN: string(in.Bytes("alpn")), HasQUICTP: q != "none", QUICTP: qb,
 			EarlyData: in["early"] == "1", ECHRetry: in.Bytes("ech")})
 		if err != nil {
 			return "m=err"
